@@ -14,8 +14,8 @@ TECHNIQUE = ("Coq proof that a function-by-function model of the mode helpers of
 LEVEL_TEXT = ("Theorems in Coq (Props/C11.v) over a model of pkcs7Padding, pkcs7UnPadding, SetIV/IV, Sm4Ecb, Sm4Cbc, Sm4CFB, Sm4OFB "
               "(hand-written loops incl. their i==0 branches): for every 16-byte key, 16-byte IV and message of any length the ciphertext is "
               "the textbook mode over pad(m); decrypting it returns m; decryption of any whole number of blocks is the textbook decryption "
-              "followed by un-padding; output length 16*(|m|/16+1); with `in` modelled as a slice header into a heap of arrays no array "
-              "existing at call time (so neither in nor its spare capacity) is written; SetIV accepts exactly 16 bytes and the helpers use "
+              "followed by un-padding; output length 16*(|m|/16+1); with `in` modelled as a slice header into a heap of arrays and pkcs7Padding's and the helpers' own writes (out = make, "
+              "copy(out[i*16:..], x)) performed on that heap, no array existing at call time (so neither in nor its spare capacity) is written; SetIV accepts exactly 16 bytes and the helpers use "
               "the package IV at call time; other key lengths give an error; any history of SetIV / helper calls returns for each call the standard result on the values at call "
               "time and the IV in force. The model is run (extracted, block cipher = SM4Spec) on all "
               "lengths 0..1024 x 4 modes with canary bytes behind len(in).")
